@@ -16,7 +16,8 @@ ASSUMPTIONS = [
 TRUSTED = ['Lean 4.33 kernel', 'axioms: propext, Classical.choice, Quot.sound',
            'hand-written model Model/MState.lean: assocClasses, defensesOf, guards, addAsset, addAssociation (tied by this correspondence)',
            'harness/mhist.py, harness/props/c06.py']
-HIST_GEN_EVERY = 3         # every third history is also run on the generated code of the `model` domain (cost bound of the third column)
+GC_EVERY = 4               # cases between two explicit collections of the dead library classes (see `run`)
+HIST_GEN_EVERY = 1         # every k-th history is also run on the generated code of the `model` domain (knob for the cost bound of the third column)
 WEIGHTS = {'add_asset': 10, 'add_association': 16, 'remove_asset': 1, 'remove_association': 1, 'lookup': 1}
 
 def class_inventory(spec):
@@ -326,7 +327,9 @@ def run_odd(seed, n, res):
             res.bump(f'odd_language_graph_raises:{type(e).__name__}'); continue
         cases.append((spec, kinds, lg, signatures(spec)))
     gen = run_driver([{'op': 'gen_classes', 'case': i, 'lg': lg_payload(lg), 'sigs': sg} for i, (sp, k, lg, sg) in enumerate(cases)])
-    for (spec, kinds, lg, sigs), g in zip(cases, gen):
+    import gc
+    for k, ((spec, kinds, lg, sigs), g) in enumerate(zip(cases, gen)):
+        if k % GC_EVERY == 0: gc.collect()
         res.evaluations += 1; res.bump('generated_code_odd_languages_compared')
         if 'error' in g:
             res.violations.append(genexec.driver_error('C06', g['error'], {'spec': spec, 'odd': kinds})); continue
@@ -465,8 +468,13 @@ def run(seed, tier, lean) -> Result:
             if lgs[q['case']] is not None: q['lg'] = lg_payload(lgs[q['case']])
             return q
         inv, gen = genexec.run_both([{'op': 'classes', 'case': i, 'lang': lang_payload(s)} for i, (s, o) in enumerate(cases)], 'gen_classes', rewrite=twin)
+    import gc
     for i, (spec, ops) in enumerate(cases):
         res.evaluations += 1
+        # the classes python_jsonschema_objects builds are garbage in reference cycles; as long as they wait for the cyclic
+        # collector every `issubclass` of the library against an ABC walks them (measured: 3.8 M instead of 1.9 M subclass checks,
+        # 50 s instead of 20 s, once the answers of the generated column made full collections rarer)
+        if i % GC_EVERY == 0: gc.collect()
         v = check_inventory(spec, inv[i].get('model') if inv else None)
         if v: res.violations.append(v); continue
         if gen is not None and gen[i] is not None and lgs[i] is not None:
